@@ -86,3 +86,70 @@ def run_worker(fn_name, cases, env_extra=None, timeout=600):
     if r.returncode != 0:
         return {"crashed": True, "rc": r.returncode, "stderr": r.stderr[-2000:], "results": None}
     return {"crashed": False, "results": json.loads(r.stdout.strip().split("\n")[-1])}
+
+
+# ---------------------------------------------------------------------------------------------------------------------
+# C18: affinity matrices and local-concurrence matches (evaluated in a worker sub-process: the C routines write
+# into caller-provided buffers)
+def _hex_matrix(m):
+    import math as _m
+    return [[None if _m.isinf(float(v)) and float(v) < 0 else float(v).hex() for v in row] for row in m]
+
+
+def affinity_eval(case):
+    """case: s1, s2 (lists of floats), window, only_triu, penalty, gamma, tau, delta, delta_factor, calls
+    (list of {k, minlen, restart}); returns matrices (hex floats, None = -inf) and the matches of each engine"""
+    import numpy as np
+    from dtaidistance import dtw, dtw_cc
+    from dtaidistance.subsequence.localconcurrences import LocalConcurrences
+    s1 = np.array(case["s1"], dtype=float)
+    s2 = np.array(case["s2"], dtype=float)
+    l1, l2 = len(s1), len(s2)
+    kw = dict(window=case["window"], only_triu=case["only_triu"], penalty=case["penalty"], gamma=case["gamma"],
+              tau=case["tau"], delta=case["delta"], delta_factor=case["delta_factor"])
+    out = {}
+
+    def guard(name, fn):
+        try:
+            out[name] = fn()
+        except BaseException as ex:
+            if isinstance(ex, (KeyboardInterrupt, SystemExit)):
+                raise
+            out[name] = {"error": type(ex).__name__ + ":" + str(ex)[:120]}
+
+    guard("py", lambda: _hex_matrix(dtw.warping_paths_affinity(s1, s2, **kw)[1]))
+    guard("py_use_c", lambda: _hex_matrix(dtw.warping_paths_affinity(s1, s2, use_c=True, **kw)[1]))
+    guard("c_full", lambda: _hex_matrix(dtw.warping_paths_affinity_fast(s1, s2, **kw)[1]))
+
+    def compact():
+        _, mk = dtw.warping_paths_affinity_fast(s1, s2, compact=True, **kw)
+        st = dtw_cc.DTWSettings(window=case["window"] or 0, penalty=case["penalty"] or 0)
+        full = np.empty((l1 + 1, l2 + 1))
+        dtw_cc.wps_expand_slice(mk, full, l1, l2, 0, l1 + 1, 0, l2 + 1, st)
+        return _hex_matrix(full)
+    guard("c_compact", compact)
+
+    def matches(engine):
+        ekw = {"py": dict(use_c=False), "c_full": dict(use_c=True, compact=False), "c_compact": dict(use_c=True, compact=True)}[engine]
+        same = case.get("self", False)
+        lc = LocalConcurrences(s1, None if same else s2, gamma=case["gamma"], tau=case["tau"], delta=case["delta"],
+                               delta_factor=case["delta_factor"], only_triu=case["only_triu"], penalty=case["penalty"],
+                               window=case["window"], **ekw)
+        lc.align()
+        if engine == "c_compact":
+            start = lc.wp_slice()
+        else:
+            start = np.where(np.ma.getmaskarray(lc._wp), -np.inf, lc._wp.data)
+            masked = np.ma.getmaskarray(lc._wp).tolist()
+        res = {"start": _hex_matrix(start), "calls": []}
+        if engine != "c_compact":
+            res["masked"] = masked
+        for call in case["calls"]:
+            ms = []
+            for m in lc.kbest_matches(k=call["k"], minlen=call["minlen"], restart=call["restart"]):
+                ms.append({"row": int(m.row), "col": int(m.col), "path": [[int(a), int(b)] for a, b in m.path]})
+            res["calls"].append(ms)
+        return res
+    for engine in ("py", "c_full", "c_compact"):
+        guard("lc_" + engine, lambda e=engine: matches(e))
+    return out
